@@ -23,6 +23,17 @@ def rstring(rng, lo=0, hi=60):
     return s
 
 
+ASTRAL = ['\U00020bb7', '\U0001f600', '\U0001d49c', '\U00010400']     # beyond the Basic Multilingual Plane: one character, two UTF-16 units
+
+
+def astral(rng, s, p=0.2):
+    """now and then a character outside the BMP somewhere in s (lengths are counted in characters by every function alike)"""
+    while rng.random() < p:
+        i = rng.randint(0, len(s))
+        s = s[:i] + rng.choice(ASTRAL) + s[i:]
+    return s
+
+
 def idem_obs(lib, f, s):
     p = lib.Parser()
     p.set_variable('va', s)
@@ -39,7 +50,7 @@ def identity_cases(rng, n):
     out = []
     V = F.var
     for _ in range(n):
-        s, t = rstring(rng), rstring(rng, 0, 20)
+        s, t = astral(rng, rstring(rng)), astral(rng, rstring(rng, 0, 20), 0.1)
         k = rng.randint(0, len(s))
         env = F.empty_env()
         env['vars'] = {'va': enc(s), 'vb': enc(t), 'vn': enc(k)}
@@ -56,6 +67,8 @@ def identity_cases(rng, n):
 def rand_case(rng):
     k = rng.randrange(8)
     s = rstring(rng)
+    if k <= 2:
+        s = astral(rng, s)
     if k == 0:
         return {'f': rng.choice(['LEFT', 'RIGHT']), 'args': [enc(s), enc(rng.choice([0, 1, len(s), len(s) + 5, rng.randint(0, len(s) + 5), -1, -3]))]}
     if k == 1:
@@ -97,7 +110,7 @@ def main(tier, replay=None):
     run.rule = ('one observation = one text-function call (text bound as a variable or written as a literal), one identity '
                 'formula, or one (f(s), f(f(s))) pair; distinct by formula and bindings; non-trivial = all')
     run.assumptions = ['strings over ASCII letters/digits/punctuation/space, TAB, BEL, accented letters whose case mapping keeps '
-                       'the length, CJK', 'SUBSTITUTE: old text non-empty and not overlapping itself',
+                       'the length, CJK; characters outside the BMP in LEFT/RIGHT/MID/LEN and the identities', 'SUBSTITUTE: old text non-empty and not overlapping itself',
                        'TEXTJOIN items are text and blanks (empty text under ignore_empty is unspecified); CONCATENATE items are '
                        'text, integers, blanks and arrays of those', 'MID with a start below 1 is unspecified']
     quick = tier == 'quick'
@@ -137,6 +150,17 @@ def main(tier, replay=None):
         w = ''.join(rng.choice(['\u00df', '\u017f', '\u03c2', '\u0149', '\u01f0', '\u0390', '\ufb01', 'a', 'B', ' ', 'Z', '1']) for _ in range(rng.randint(1, 8)))
         fn_cases.append({'f': 'LOWER', 'args': [enc(w)]})
         fn_cases.append({'f': 'LEN', 'args': [enc(w)]})
+    # text that spells an error code is text: as an argument, as a part, and as the whole result
+    for code in ['#N/A', '#DIV/0!', '#VALUE!', '#REF!', '#NAME?', '#NUM!', '#NULL!', '#ERROR!', '#NOT_IMPLEMENTED!', '#GETTING_DATA']:
+        h = len(code) // 2
+        fn_cases += [{'f': 'LEFT', 'args': [enc(code), enc(99)]}, {'f': 'LEFT', 'args': [enc(code + 'x'), enc(len(code))]},
+                     {'f': 'RIGHT', 'args': [enc('x' + code), enc(len(code))]}, {'f': 'MID', 'args': [enc('ab' + code + 'cd'), enc(3), enc(len(code))]},
+                     {'f': 'LEN', 'args': [enc(code)]}, {'f': 'CONCATENATE', 'args': [enc(code[:h]), enc(code[h:])]},
+                     {'f': 'CONCAT', 'args': [enc(code)]}, {'f': 'TEXTJOIN', 'args': [enc(code[h]), enc(False), enc(code[:h]), enc(code[h + 1:])]},
+                     {'f': 'SUBSTITUTE', 'args': [enc(code.replace('#', '+')), enc('+'), enc('#')]},
+                     {'f': 'SUBSTITUTE', 'args': [enc(code), enc('#'), enc('')]}]
+        idem += [idem_obs(lib, 'UPPER', code.lower()), idem_obs(lib, 'LOWER', code), idem_obs(lib, 'TRIM', ' ' + code + '  '),
+                 idem_obs(lib, 'CLEAN', code[:h] + '\x07' + code[h:]), idem_obs(lib, 'PROPER', code)]
     obs = fncases.observe(lib, fn_cases, twins=True)
     so = suite.observations({'LEFT','RIGHT','MID','LEN','UPPER','LOWER','PROPER','TRIM','CLEAN','SUBSTITUTE','CONCATENATE','CONCAT','TEXTJOIN','CHAR','CODE','LEFTB','RIGHTB','MIDB','LENB'}, len(obs) + 1)   # the same functions as the repository's own tests call them
     run.extra['calls_from_repository_tests'] = len(so)
